@@ -5,7 +5,7 @@
       well-formed for `p` and, if it appends for `p`, comes from the leader of `p` (`brOK`); every `deliver` step is not
       one of the excluded cases (`delOK`: the set holds something of `p`, or the answer is not a connection error and no
       message of `p` is held in waitForSpace).
-    * `DeliverProj M p` - OPEN (a named Prop): the projection of the `deliver` step under `delOK` (visible set: the
+    * `DeliverProj M p` - (a named Prop; PROVED in Props/C02multiC2.lean, `deliverProj_holds`): the projection of the `deliver` step under `delOK` (visible set: the
       `deliver` step with the projected answer; hidden set: no step).  It needs the projection of `BrokerProd.resp`
       with several partitions in the set on one partition.
     * `ProjSim_partial` - PROVED from `DeliverProj`: `projOK` and `runN M {} cs = some sN` give a run of
@@ -48,7 +48,7 @@ def projOK (M : Nat) (p : Int) : SysN → List ChoiceN → Bool
         | .deliver w _ => delOK p sN w
         | _ => true) && projOK M p sN' cs
 
-/-- **the projection of the `deliver` step** (OPEN) -/
+/-- **the projection of the `deliver` step** (a named Prop; proved in Props/C02multiC2.lean: `deliverProj_holds`) -/
 def DeliverProj (M : Nat) (p : Int) : Prop :=
   ∀ (sN sN' : SysN) (s : Sys) (w : Nat) (st : Bool), WRel (BRp p) p sN s → delOK p sN w = true →
     sysStepN M sN (.deliver w st) = some sN' →
